@@ -71,14 +71,13 @@ def find_diff_end(a: "Fragment", b: "Fragment", pos_a: int, pos_b: int) -> Diff 
             assert isinstance(child_a, pm_node.TextNode)
             assert isinstance(child_b, pm_node.TextNode)
             if child_a.text != child_b.text:
-                same, min_size = (
-                    0,
-                    min(text_length(child_a.text), text_length(child_b.text)),
-                )
+                units_a = child_a.text.encode("utf-16-le")
+                units_b = child_b.text.encode("utf-16-le")
+                same, min_size = 0, min(len(units_a), len(units_b)) // 2
                 while (
                     same < min_size
-                    and child_a.text[text_length(child_a.text) - same - 1]
-                    == child_b.text[text_length(child_b.text) - same - 1]
+                    and units_a[len(units_a) - 2 * same - 2 : len(units_a) - 2 * same]
+                    == units_b[len(units_b) - 2 * same - 2 : len(units_b) - 2 * same]
                 ):
                     same += 1
                     pos_a -= 1
